@@ -59,6 +59,13 @@ CLAIMED["C06"] = (SCHED_TECH,
     "worker can always hand over its result (at most N-1 other results outstanding), for the gated code; C06_refuted_ungated keeps the repaired defect as a machine-checked "
     "witness (a stuck state with a worker blocked on donec). Tie: every observed execution must end in the model's final state (all WExit events present); goroutine dumps "
     "after quiescence.", SCHED_NOTE, "DESIGN.md §7 C06")
+CLAIMED["C12"] = (SCHED_TECH + " + Go race detector runs of the harness",
+    "Partial, labelled so. Proved for every run of the model: only the loop writes job state/ready/counters/s.err (C12_loop_only), Enqueue touches only the enqueue "
+    "channel (C12_enqueue), workers write only their slot and donec (C12_worker_only), the invalid flag a worker reads is never written after the job was released "
+    "(C12_invalid_stable), and between a provider's successful end and its consumer's start lie, in order, the result send, its receipt and the dispatch "
+    "(C12_values: the channel operations carrying the happens-before edge). Tie: trace conformance plus -race runs of the real scheduler (hooked executions, "
+    "concurrent Enqueue from several goroutines, early returns with jobs still running).",
+    SCHED_NOTE + " Go's memory-model rules for channels are taken as given; completeness of the list of shared locations rests on the race detector (a test). The generated plumbing (vN/pN variables, ran flags) is exercised under -race by the generated-code harness when built.", "DESIGN.md §7 C12")
 CLAIMED["C07"] = (SCHED_TECH,
     "C07_nil (nil only if every job started and ended successfully, none otherwise), C07_nil_ctx (context not cancelled when nil is returned), C07_error (a "
     "non-nil return is exactly one error: the context's, or the very error a job ended with; never the sentinel), C07_downstream (nothing transitively "
